@@ -652,6 +652,9 @@ type GenOpts struct {
 	Vias         []string
 	Chunking     bool
 	SimpleNames  bool // file names from a benign pool
+	// Boundaries: programs with exactly ONE multipart level (the documented domain of a predefined
+	// boundary) get a caller-chosen boundary one time in four.
+	Boundaries bool
 }
 
 var benignNames = []string{"file.txt", "report.pdf", "image.png", "a b.dat", "data", "übung.txt", "日本.bin", "x;y=z.bin", "semi;colon.txt", "noext", "archive.tar.gz", "spaced name here.doc",
@@ -777,6 +780,9 @@ func Program(t *rapid.T, o GenOpts) *MsgSpec {
 	for i := 0; i < nAtt; i++ {
 		spec.Attachments = append(spec.Attachments, file("att"))
 	}
+	if o.Boundaries && strings.Count(ExpectedShape(nParts, nEmb, nAtt), "(") == 1 && rapid.IntRange(0, 3).Draw(t, "ownboundary") == 0 {
+		spec.Boundary = rapid.SampledFrom([]string{"vErIf.BoUnDaRy_0123-xyz", "=_VerifNextPart_000_0123_01DA.ABCD", "verif'boundary(with)+specials,/:=?"}).Draw(t, "boundary")
+	}
 	spec.From = "sender@verif.example"
 	spec.To = []string{"rcpt@verif.example"}
 	s := "verif subject"
@@ -788,6 +794,9 @@ func Program(t *rapid.T, o GenOpts) *MsgSpec {
 func (s *MsgSpec) ShapeKey() string {
 	var sb strings.Builder
 	fmt.Fprintf(&sb, "%s/p%d/e%d/a%d", s.Encoding, len(s.Parts), len(s.Embeds), len(s.Attachments))
+	if s.Boundary != "" {
+		sb.WriteString("/ownboundary")
+	}
 	for _, p := range s.Parts {
 		fmt.Fprintf(&sb, "/%s:%s:%s", p.CType, p.Enc, strings.Join(ContentClasses(p.Content), "+"))
 	}
